@@ -595,9 +595,8 @@ def compareReduce (c : Cfg) (N : NumOps) (opcode : String) : Val â†’ List Val â†
     | .err e => .err e
     | .ub => .ub
 
-/-- the primitive comparator each polymorphic one is built on -/
-def polyComparators : List (String Ã— String) :=
-  [("compare<", "<"), ("compare<=", "<="), ("compare=", "="), ("compare>", ">"), ("compare>=", ">=")]
+/-- the primitive comparator each polymorphic one is built on (regenerated from boot.janet) -/
+def polyComparators : List (String Ã— String) := polyChains
 
 /-- `int/to-bytes x :le`: the 8 bytes of the box (memcpy on a little-endian machine), least significant first -/
 def toBytesLE (v : Int) : List Nat := (List.range 8).map (fun i => ((wrapU v) / 256 ^ i % 256).toNat)
